@@ -44,7 +44,7 @@ COMPONENTS = {
     "stub": ["SimEvaluator", "sim/scripted optimizer", "objective scaler incl. sign flip"],
 }
 PROBES = ["zero_objective_in_history", "nan_and_valid_in_one_event", "states_compared", "nan_result_in_history", "nan_first", "infeasible_in_history", "tie_in_history", "sign_flip",
-          "untracked_source_result", "gradient_only_event", "nested", "basic_optimizer", "best_tracker", "last_tracker",
+          "untracked_source_result", "gradient_only_event", "nested", "basic_optimizer", "basic_optimizer_run_again", "basic_optimizer_run_again_without_results", "best_tracker", "last_tracker",
           "improvement_after_first"]
 
 
@@ -144,6 +144,12 @@ def _basic(rng: random.Random) -> dict:
             scn["transforms"] = None
     cfg["optimizer"] = {"method": method, "options": {"maxiter": rng.randint(2, 5)}, "tolerance": 1e-3}
     scn["entry"] = "basic"
+    if rng.random() < 0.5:
+        # one BasicOptimizer object run two or three times; in some runs every evaluation fails, so that the run
+        # has no feasible result at all and must report none (not what an earlier run of the object found)
+        allfail = [{"kind": "nan", "eval": None, "real": None, "pert": None, "col": None}]
+        scn["run_faults"] = [list(scn.get("faults") or [])] + [
+            (allfail if rng.random() < 0.6 else list(scn.get("faults") or [])) for _ in range(rng.randint(1, 2))]
     scn["basic_tol"] = rng.choice([1e-10, 1e-3, 0.5])
     scn["stratum"] = "basic"
     return scn
@@ -329,16 +335,30 @@ def _execute_basic(scn: dict) -> dict:
     bo = BasicOptimizer(copy.deepcopy(scn["configs"][0]), ev, transforms=transforms, constraint_tolerance=tol)
     bo.set_results_callback(cb, transformed=transforms is not None)
     exc = None
-    try:
-        bo.run()
-    except Exception as e:  # noqa: BLE001
-        exc = f"{type(e).__name__}: {e}"
     compared = 0
-    if exc is None:
+    for run_no, run_faults in enumerate(scn.get("run_faults") or [None]):
+        if run_faults is not None:
+            ev.faults = list(run_faults)
+        start = len(history)
+        try:
+            bo.run()
+        except Exception as e:  # noqa: BLE001
+            exc = f"{type(e).__name__}: {e}"
+            break
         held_after = {counter[0] + 1: bo.results}
-        compared = fold_check(history, held_after, "best", tol, "BasicOptimizer.results", viol, probes)
+        nviol = len(viol)
+        compared += fold_check(history[start:], held_after, "best", tol, f"BasicOptimizer.results (run {run_no} of the object)", viol, probes)
+        for v in viol[nviol:]:
+            v["sig"] = {**v["sig"], "later_run": run_no > 0}
+        if run_no > 0:
+            probes["basic_optimizer_run_again"] = probes.get("basic_optimizer_run_again", 0) + 1
+            if not any(isinstance(o, FunctionResults) and o.functions is not None for _, _, o in history[start:]):
+                probes["basic_optimizer_run_again_without_results"] = probes.get("basic_optimizer_run_again_without_results", 0) + 1
         if bo.results is not None and bo.variables is not None and not np.array_equal(bo.variables, bo.results.evaluations.variables):
             viol.append({"clause": "basic-optimizer-variables", "sig": {}, "detail": "variables differ from results.evaluations.variables"})
+        if (bo.results is None) != (bo.variables is None):
+            viol.append({"clause": "basic-optimizer-variables", "sig": {"one_is_none": True},
+                         "detail": f"run {run_no}: results is {'None' if bo.results is None else 'set'} but variables is {'None' if bo.variables is None else 'set'}"})
     if scn.get("transforms") and (scn["transforms"].get("obj") or {}).get("flip"):
         probes["sign_flip"] = 1
     nres = sum(1 for _, u, o in history if isinstance(o, FunctionResults) and o.functions is not None)
